@@ -7,6 +7,7 @@ import (
 	shared_config "lunar/shared-model/config"
 	"lunar/toolkit-core/client"
 	context_manager "lunar/toolkit-core/context-manager"
+	"lunar/toolkit-core/urltree"
 	"net/http"
 	"regexp"
 	"strings"
@@ -55,8 +56,6 @@ var (
 	haproxyReqCaptureNeededFrom = "http://localhost:" + haproxyManagePort + "/capture_req_from"
 	haproxyReqCaptureFormAll    = "http://localhost:" + haproxyManagePort + "/capture_req_all"
 )
-
-var regexToFindPathParameters = regexp.MustCompile(`/\{[a-zA-Z0-9-_]+\}`)
 
 type HAProxyEndpointData struct {
 	Endpoint     string
@@ -138,19 +137,25 @@ func HaproxyEndpointFormat(
 	requirements *stream_types.ProcessorRequirement,
 ) *HAProxyEndpointData {
 	log.Trace().Msgf("Original URL: %v", url)
-	url = strings.ReplaceAll(url, ".", `\.`)
-	formattedURL := url
 	wildcardLiteral := "/*"
-	var hasWildcard bool
-	if strings.HasSuffix(formattedURL, wildcardLiteral) {
-		hasWildcard = true
-		formattedURL = strings.TrimSuffix(formattedURL, wildcardLiteral)
+	hasWildcard := strings.HasSuffix(url, wildcardLiteral)
+	if hasWildcard {
+		url = strings.TrimSuffix(url, wildcardLiteral)
+	}
+	// The proxy must match what the engine matches: a path segment written as
+	// {name} stands for any one segment, everything else is literal text
+	segments := strings.Split(url, "/")
+	for i, segment := range segments {
+		if _, isPathParam := urltree.TryExtractPathParameter(segment); isPathParam && i > 0 {
+			segments[i] = strings.TrimPrefix(RegexToReplacePathParameters, "/")
+		} else {
+			segments[i] = regexp.QuoteMeta(segment)
+		}
+	}
+	formattedURL := strings.Join(segments, "/")
+	if hasWildcard {
 		formattedURL += RegexToReplaceWildcard
 	}
-	formattedURL = regexToFindPathParameters.ReplaceAllString(
-		formattedURL,
-		RegexToReplacePathParameters,
-	)
 	log.Trace().Msgf("Formatted URL: %v", formattedURL)
 	result := strings.Join([]string{method, formattedURL}, delimiter)
 	if !hasWildcard {
